@@ -49,6 +49,8 @@ namespace sim::heap {
    int owner() { return 0; }
    void set_policy(int) { }
    int policy() { return 0; }
+   void set_fill(int, int) { }
+   int fill(int) { return 0; }
    void begin_op(uint32_t) { }
    void arm_fault(uint32_t) { }
    bool fault_fired() { return false; }
@@ -126,6 +128,7 @@ namespace {
    Owner g_owners[max_owners];
    int g_cur = 0;
    int g_policy = Ascending;
+   int g_fill[max_owners] = { };
    Rng g_rng { 1 };
    uint64_t g_serial = 0;
    uint32_t g_op = 0;
@@ -267,6 +270,18 @@ namespace {
       if (is_large) ++g_stats.large;
       char* u = user_of(h);
       UNPOISON(u, n);                 // exactly the requested bytes: [n, cap) stays poisoned
+      switch (g_fill[g_cur]) {
+      case FillZero: std::memset(u, 0, n); break;
+      case FillOnes: std::memset(u, 0xff, n); break;
+      case FillDigit: std::memset(u, '5', n); break;
+      default: {
+         uint64_t v = h->serial * 0x9e3779b97f4a7c15ull + 0x632be59bd9b4e019ull;
+         size_t i = 0;
+         for (; i + 8 <= n; i += 8) { v ^= v << 13; v ^= v >> 7; v ^= v << 17; std::memcpy(u + i, &v, 8); }
+         for (; i < n; ++i) { v ^= v << 13; v ^= v >> 7; v ^= v << 17; u[i] = char(v); }
+         break;
+      }
+      }
       return u;
    }
 
@@ -341,6 +356,7 @@ namespace {
       g_cur = 0;
       g_policy = policy % PolicyCount;
       g_rng.reseed(seed ^ 0x68656170ull);
+      for (int k = 0; k < max_owners; ++k) { uint64_t z = (seed + uint64_t(k) * 0x9e3779b97f4a7c15ull) * 0xbf58476d1ce4e5b9ull; g_fill[k] = 1 + int((z >> 40) % FillCount); }
       g_serial = 0;
       g_op = 0;
       g_op_allocs = 0;
@@ -353,6 +369,8 @@ namespace {
    void set_owner(int o) { g_cur = (o % max_owners + max_owners) % max_owners; }
    int owner() { return g_cur; }
    void set_policy(int p) { g_policy = ((p % PolicyCount) + PolicyCount) % PolicyCount; }
+   void set_fill(int owner, int mode) { g_fill[(owner % max_owners + max_owners) % max_owners] = 1 + ((mode % FillCount) + FillCount - 1) % FillCount; }
+   int fill(int owner) { return g_fill[(owner % max_owners + max_owners) % max_owners]; }
    int policy() { return g_policy; }
    void begin_op(uint32_t i) { g_op = i; g_op_allocs = 0; }
    void arm_fault(uint32_t k) { g_armed = k; if (k != 0) g_fired = false; }
